@@ -154,8 +154,21 @@ def rotation(ctx, prog):
     sp_sw = bool_switch_on_field(poll, "session_present")
     clears = [bb for bb, t in poll.calls() if callee_path(t).endswith("VecDeque::<T, A>::clear") and (receiver_fields(poll, t) or [None])[-1] == "pending" and not poll.is_cleanup(bb)]
     reanchor = []
+    empty_anchor = []
     for body, bi, st in field_writes(prog, "last_puback"):
-        if body.id.startswith("state::MqttState::") and body.name not in ("handle_incoming_puback", "new"):
+        if body.id.startswith("state::MqttState::") and body.name == "outgoing_publish":
+            # the window is empty: this publish is the oldest outstanding one; the rotation point goes right before it
+            guarded = False
+            for sbb, holds, fails, _ in cmp_switches(body, ("Eq",), lambda ss: any(getattr(x, "fields", None) and x.fields[-1] == "inflight" for x in ss), lambda ss: any(x.kind == "const" and x.v == 0 for x in ss)):
+                guarded = guarded or dominates(body, holds, bi)
+            src = flatten_src(provenance(body, st["rv"]["a"])) if st["rv"]["k"] == "use" else []
+            ops = [x for x in src if x.kind == "op"]
+            before = any(x.name in ("Sub", "SubWithOverflow", "SubUnchecked") for x in ops) or any(x.kind == "call" and re.search(r"(wrapping|saturating|checked)_sub$", x.path) for x in src)
+            if guarded and before:
+                empty_anchor.append(bi)
+            else:
+                ctx.violation(rule, body.id, "writes last_puback", "outgoing_publish rewrites the rotation point other than `last_puback = pkid - 1` while nothing is outstanding (inflight == 0)", site=body.loc(st.get("sp")))
+        elif body.id.startswith("state::MqttState::") and body.name not in ("handle_incoming_puback", "new"):
             ctx.violation(rule, body.id, "writes last_puback", "last_puback is written outside the PUBACK handler", site=body.loc(st.get("sp")))
         elif body.id == poll.id:
             src = flatten_src(provenance(body, st["rv"]["a"])) if st["rv"]["k"] == "use" else []
@@ -177,6 +190,17 @@ def rotation(ctx, prog):
                           "on `!connack.session_present` poll() drops the carried-over requests but leaves last_puback where the old session's acks put it while last_pkid keeps counting: "
                           "the next session's packet ids wrap across that stale point and clean() retransmits them out of order after the next failure",
                           site=poll.loc(poll.blocks[clears[0]]["t"].get("sp")))
+    # SUBSCRIBE / UNSUBSCRIBE take ids from the same counter without occupying outgoing_pub: while nothing is outstanding
+    # the counter runs ahead of last_puback, and after a wrap the stale point lies inside the next outstanding range.
+    # The publish that finds the window empty is the oldest outstanding one and re-anchors the point right before itself.
+    op = state_fn(prog, "v4", "outgoing_publish")
+    if empty_anchor:
+        ctx.ok(rule, op.id, "a publish that finds the window empty re-anchors the rotation point right before its own id", site=op.fn_loc())
+    else:
+        ctx.violation(rule, op.id, "rotation point trails ids taken by SUBSCRIBE/UNSUBSCRIBE",
+                      "last_puback moves only with PUBACKs, but SUBSCRIBE/UNSUBSCRIBE draw ids from the same counter: with the window empty the counter runs ahead of it, and after a wrap-around the rotation point lies inside the outstanding range — "
+                      "clean() then retransmits the newest publishes first although the broker acknowledged strictly in order (ids 9,10,1..6 outstanding, last_puback = 5: replay starts with 6)",
+                      site=op.fn_loc())
     c = state_fn(prog, "v4", "clean")
     sp = [(bb, t) for bb, t in c.calls() if re.search(r"split_at_mut$", callee_path(t))]
     okr = False
